@@ -625,24 +625,44 @@ func report(rec *ev.Recorder, w *workload, desc string, outs []outcome) (viol *o
 	return
 }
 
-func runAll(w *workload, objs []*fsobj.Obj, faults []fault) []outcome {
-	outs := make([]outcome, len(faults))
-	var wg sync.WaitGroup
-	sem := make(chan struct{}, workers())
-	for n := range faults {
-		wg.Add(1)
-		sem <- struct{}{}
-		go func() {
-			defer wg.Done()
-			defer func() { <-sem }()
-			outs[n] = evaluate(w, objs, faults[n])
-		}()
+// runAll evaluates the fault cases in a deterministic pseudo-random order (so that a time-budget cut leaves a
+// spread-out sample) with bounded parallelism; skipped = cases not run because the wall-clock budget was used up.
+func runAll(w *workload, objs []*fsobj.Obj, faults []fault, order uint64, budget *fshelper.Budget) (outs []outcome, skipped int) {
+	faults = append([]fault(nil), faults...)
+	x := order | 1
+	for i := len(faults) - 1; i > 0; i-- {
+		x ^= x << 13
+		x ^= x >> 7
+		x ^= x << 17
+		j := int(x % uint64(i+1))
+		faults[i], faults[j] = faults[j], faults[i]
 	}
-	wg.Wait()
-	return outs
+	nw := workers()
+	for at := 0; at < len(faults); at += nw {
+		if at >= 2*nw && budget.Exceeded() {
+			skipped = len(faults) - at
+			break
+		}
+		chunk := faults[at:min(at+nw, len(faults))]
+		res := make([]outcome, len(chunk))
+		var wg sync.WaitGroup
+		for n := range chunk {
+			wg.Add(1)
+			go func() {
+				defer wg.Done()
+				res[n] = evaluate(w, objs, chunk[n])
+			}()
+		}
+		wg.Wait()
+		outs = append(outs, res...)
+	}
+	return outs, skipped
 }
 
-func finish(t *rapid.T, rec *ev.Recorder, w *workload, desc string, outs []outcome) {
+func finish(t *rapid.T, rec *ev.Recorder, w *workload, desc string, outs []outcome, skipped int) {
+	if skipped > 0 {
+		rec.LabelN("fault-cases-skipped-time-budget", int64(skipped))
+	}
 	viol, incon := report(rec, w, desc, outs)
 	if viol != nil {
 		t.Fatalf("C13 violated: %s", viol.viol)
@@ -658,8 +678,16 @@ func TestC13Sequential(t *testing.T) {
 	if err := sysinject.Available(); err != nil {
 		ev.Inconclusive("C13 needs strace with ptrace permission: %v", err)
 	}
+	budget := fshelper.NewBudget(50*time.Second, 0.6)
+	cases := 0
 	rapid.Check(t, func(t *rapid.T) {
 		w := genSequential(t)
+		order := rapid.Uint64().Draw(t, "caseOrder")
+		if cases > 0 && budget.Exceeded() {
+			rec.Label("workload-skipped-time-budget") // reported, never a verdict
+			return
+		}
+		cases++
 		objs := w.spec.Universe()
 		desc := w.String()
 		dry := dryRun(t, w, objs)
@@ -713,7 +741,8 @@ func TestC13Sequential(t *testing.T) {
 				faults = append(faults, fault{inj: []sysinject.Inject{singles[a], singles[b]}, tag: "double"})
 			}
 		}
-		finish(t, rec, w, desc, runAll(w, objs, faults))
+		outs, skipped := runAll(w, objs, faults, order, budget)
+		finish(t, rec, w, desc, outs, skipped)
 	})
 }
 
@@ -723,8 +752,16 @@ func TestC13Concurrent(t *testing.T) {
 	if err := sysinject.Available(); err != nil {
 		ev.Inconclusive("C13 needs strace with ptrace permission: %v", err)
 	}
+	budget := fshelper.NewBudget(50*time.Second, 0.4)
+	cases := 0
 	rapid.Check(t, func(t *rapid.T) {
 		w := genConcurrent(t)
+		order := rapid.Uint64().Draw(t, "caseOrder")
+		if cases > 0 && budget.Exceeded() {
+			rec.Label("workload-skipped-time-budget") // reported, never a verdict
+			return
+		}
+		cases++
 		objs := w.spec.Universe()
 		desc := w.String()
 		_ = dryRun(t, w, objs)
@@ -755,6 +792,7 @@ func TestC13Concurrent(t *testing.T) {
 			}
 			faults = append(faults, f)
 		}
-		finish(t, rec, w, desc, runAll(w, objs, faults))
+		outs, skipped := runAll(w, objs, faults, order, budget)
+		finish(t, rec, w, desc, outs, skipped)
 	})
 }
